@@ -42,6 +42,10 @@ TREES: dict[str, Any] = {
     # deepest leaf neither first nor last; 7 children over 3 branches -> 2.33
     "bushy": [(0, 1, [[]]), (1, 2, [[], [(1, 1, [[(1, 1, [[], []])]])]]), (1, 1, [[]])],
     "two-groups": [(1, 1, [[], [], []]), (0, 1, [[], [(0, 1, [[]])]])],
+    # 5 children under 3 non-leaf features: 1.666... must round UP to 1.67
+    "ratio-rounds-up": [(1, 1, [[(1, 2, [[(1, 1, [[], []])], []])]])],
+    # 8 children under 3 non-leaf features: 2.666... -> 2.67
+    "ratio-rounds-up-2": [(1, 1, [[], [], [(0, 1, [[(1, 3, [[], [], []])], []])]])],
 }
 # sibling names that differ only in case: a mandatory beside an optional look-alike, two look-alike group
 # members that are both variation points, look-alike leaves at different depths
@@ -243,6 +247,22 @@ def check(pm: ProgramModel, ctx: Ctx) -> None:
                   bad=f"{hname} nests calls {seen[0]} deep on a chain of 6 features and {seen[1]} deep on a chain of 12: the "
                       f"nesting grows with the depth of the tree (a function on its path recurses once per level), so a "
                       f"deep enough well-formed model ends in RecursionError instead of a value")
+    # a chain deeper than any limit a function may have in mind (the interpreter's recursion limit is 1000)
+    deep = chain(1100)
+    leaf_d = _leaves(deep._f["root"])[0]
+    it_ = Interp(pm, max_depth=60)
+    try:
+        anc = it_.call(ga, [leaf_d])
+        dep = it_.call(md, [deep])
+        okd = isinstance(anc, list) and len(anc) == 1099 and anc[-1] is deep._f["root"] and anc[0] is leaf_d._f["parent"] \
+            and dep == 1099
+        badd = f"ancestors of the deepest feature: {len(anc) if isinstance(anc, list) else anc} entries" \
+               f"{'' if not isinstance(anc, list) or not anc else ' ending at ' + str(anc[-1]._f.get('name'))}, depth {dep}"
+    except AbsRaise as exc:
+        okd, badd = False, f"raises {exc.what}"
+    ctx.check(okd, "C16-ANCESTORS", "deep-chain:1100", loc(ga.unit.path, ga.node),
+              "on a chain of 1100 features the deepest one has 1099 ancestors up to the root and the depth is 1099",
+              bad=f"chain of 1100 features (expected 1099 ancestors ending at the root, depth 1099): {badd}")
     # leaf predicate sites ---------------------------------------------------------------------------
     leaf_sites(pm, ctx, mb)
     # variation points: step check --------------------------------------------------------------------
@@ -286,12 +306,13 @@ def _mean(xs: Any) -> Any:
 
 
 def _leaves(f: AObj) -> list[AObj]:
-    kids = [c for r in f._f["relations"] for c in r._f["children"]]
-    if not kids:
-        return [f]
-    out = []
-    for k in kids:
-        out.extend(_leaves(k))
+    out, stack = [], [f]
+    while stack:                       # pre-order, left to right, without recursion (deep chains)
+        x = stack.pop()
+        kids = [c for r in x._f["relations"] for c in r._f["children"]]
+        if not kids:
+            out.append(x)
+        stack.extend(reversed(kids))
     return out
 
 
